@@ -1,14 +1,134 @@
 /-
-C10 (round 4) — index models: result buffers: write sets of the kernels whose result is allocated uninitialised.
-Import-free (linked into the driver). Protocol kinds are answered by `handleAlloc` (`none` = not one of mine), which the
-fallback arm of `Mahotas.C10.handle` consults.
+C10 (round 4) — result buffers: write sets of the code that runs between an allocation of UNINITIALISED memory
+(`PyArray_SimpleNew`, `PyArray_EMPTY`, `numpy::new_array`, `new T[n]`, `np.empty`, `np.empty_like`, `_get_output` with
+`out=None`) and the first read / the return of that buffer. `translator/allocs.py` enumerates those allocation sites from
+the current sources (`Generated.allocSiteTable`); every site is filled by one of the few loop shapes ("mechanisms")
+transliterated below, and `Properties/C10.lean` proves for each mechanism, for ALL sizes, that its writes stay inside the
+buffer and that EVERY cell is written (`covers`), and decides that every generated site is classified.
+Import-free (linked into the driver).
+
+Protocol (`c10 kind=alloc mech=<m> a=<nat> b=<nat> [mask=<0/1 list>]`) -> `ok= n= term=1 sum= covers= size=`
+  `ok` = every write index inside `[0,size)`, `n` = number of writes, `sum` = Σ indices, `covers` = every cell written.
+  mech = fill | pixel | rows | pairs | records | bboxinit | complexhalves | compress | gm | hitmissbuf | window
 -/
 import Mahotas.Model.Basic
 namespace Mahotas.C10Alloc
 open Mahotas
 
+/-- every write index of `ws` is a cell of a buffer of `n` cells -/
+def within (n : Nat) (ws : List Int) : Bool := ws.all fun i => decide (0 ≤ i) && decide (i < (n : Int))
+
+/-- every cell `0 … n-1` of the buffer occurs among the write indices -/
+def covers (n : Nat) (ws : List Int) : Bool := (List.range n).all fun i => ws.contains (Int.ofNat i)
+
+/-- `std::fill(p, p + n, v)`, `std::fill_n(p, n, v)`, `PyArray_FILLWBYTE(a, 0)`, `a.fill(v)`, `a[...] = v`:
+    `for (; first != last; ++first) *first = v` -/
+def fillWrites (n : Nat) : List Int := (List.range n).map Int.ofNat
+
+/-- the pixel loop shared by `convolve`, `rank_filter`, `mean_filter`, `template_match`, `erode`, `dilate`, `borders`,
+    `zoom_shift`, `fast_hitmiss`, …: `T* rpos = res.data(); for (i = 0; i != N; ++i, ++rpos, …) { …; *rpos = value; }` —
+    ONE unconditional store per iteration through a pointer that starts at the first cell and is advanced once per iteration.
+    (`pixelGo k rpos` = the remaining `k` iterations with the pointer at offset `rpos`.) -/
+def pixelGo : Nat → Int → List Int
+  | 0, _ => []
+  | k + 1, rpos => rpos :: pixelGo k (rpos + 1)
+
+def pixelWrites (n : Nat) : List Int := pixelGo n 0
+
+/-- two nested counted loops over a C-contiguous 2-D result, `for y < N0: for x < N1: out[y*N1 + x] = …`
+    (`convolve1d` fast path: `result.data(y)[x]`; `integral`; `disk_2d`'s running pointer is the pixel loop) -/
+def rowsWrites (n0 n1 : Nat) : List Int :=
+  (List.range n0).flatMap fun y => (List.range n1).map fun x => Int.ofNat y * Int.ofNat n1 + Int.ofNat x
+
+/-- `_convex.cpp: convexhull`: `oiter = data(output); for (i = 0; i != h; ++i) { *oiter++ = P[i].y; *oiter++ = P[i].x; }`
+    into the `(h, 2)` result of `PyArray_SimpleNew` -/
+def pairsGo : Nat → Int → List Int
+  | 0, _ => []
+  | k + 1, o => o :: (o + 1) :: pairsGo k (o + 2)
+
+def pairsWrites (h : Nat) : List Int := pairsGo h 0
+
+/-- `_surf.cpp: py_surf / py_descriptors / py_interest_points`: `for (i = 0; i != n; ++i) points[i].dump(arr.data(i))` where
+    `dump` stores `out[0] … out[k-1]` (`k = ndoubles`: five assignments, resp. `interest_point::dump`, `out[5] = angle` and a
+    `memcpy` of 64 doubles) and `arr.data(i)` is row `i` of the C-contiguous `(n, k)` array -/
+def recordsWrites (n k : Nat) : List Int :=
+  (List.range n).flatMap fun i => (List.range k).map fun j => Int.ofNat i * Int.ofNat k + Int.ofNat j
+
+/-- `_bbox.cpp: py_bbox`: `for (j = 0; j != nd; ++j) { extrema_v[2*j] = DIM(array, j); extrema_v[2*j+1] = 0; }` into the
+    `2*nd` cells of `PyArray_SimpleNew` (all later accesses of `bbox`/`carray2_bbox` read-modify-write these cells) -/
+def bboxInitWrites (nd : Nat) : List Int :=
+  (List.range nd).flatMap fun j => [2 * Int.ofNat j, 2 * Int.ofNat j + 1]
+
+/-- `zernike.py`: `An = np.empty(shape, complex128); An.real = …; An.imag = …` — a complex buffer of `n` elements seen as
+    `2n` doubles: the first assignment stores every even cell, the second every odd cell -/
+def complexHalvesWrites (n : Nat) : List Int :=
+  (List.range n).map (fun i => 2 * Int.ofNat i) ++ (List.range n).map (fun i => 2 * Int.ofNat i + 1)
+
+/-- `_filters.h: filter_iterator` with `compress`: `footprint[i] = !!(*fiter)` for every `i < filter_size` (pixel loop), then
+    `size_` = number of set footprint cells (what `init_filter_offsets` returns), `new_filter_data = new T[size_]` and
+    `j = 0; for (i …) if (*fiter) new_filter_data[j++] = *fiter;` — the write indices for a filter whose non-zero mask is `mask` -/
+def compressGo : List Bool → Int → List Int
+  | [], _ => []
+  | true :: ms, j => j :: compressGo ms (j + 1)
+  | false :: ms, j => compressGo ms j
+
+def compressWrites (mask : List Bool) : List Int := compressGo mask 0
+
+/-- the `size_` the buffer is allocated with -/
+def compressSize (mask : List Bool) : Nat := (mask.filter id).length
+
+/-- `_zernike.cpp: py_znl`: `g_m = new double[int((n-l)/2) + 1]; for (m = 0; m <= (n-l)/2; m++) g_m[m] = …` and then, per
+    element, `for (m = 0; m <= (n-l)/2; m++) Vnl += g_m[m] * …` (C division truncates towards zero). Writes resp. reads. -/
+def gmSize (n l : Int) : Int := Int.tdiv (n - l) 2 + 1
+
+def gmIndices (n l : Int) : List Int := (List.range (Int.tdiv (n - l) 2 + 1).toNat).map Int.ofNat
+
+/-- `majority_filter` / `find2d`: the whole result is filled first (`PyArray_FILLWBYTE`, `std::fill`), the window loops only
+    overwrite: fill followed by the `(rows-N) × (cols-N)` stores at `(y + N/2) * cols + N/2 + x` (majority; taken when
+    `rows ≥ N` and `cols ≥ N`) -/
+def windowWrites (rows cols win : Nat) : List Int :=
+  fillWrites (rows * cols) ++
+  (if rows < win ∨ cols < win then [] else
+    (List.range (rows - win)).flatMap fun y => (List.range (cols - win)).map fun x =>
+      (Int.ofNat y + Int.ofNat (win / 2)) * Int.ofNat cols + Int.ofNat (win / 2) + Int.ofNat x)
+
+/-- a read list is defined by a write list: every read index was written (order: all the writes precede the reads) -/
+def readsDefined (ws rs : List Int) : Bool := rs.all fun i => ws.contains i
+
+/-- `_thin.cpp`: one round `fast_hitmiss(array, elem, buffer)` (pixel loop over the `N` cells of the `np.empty` scratch
+    `imagebuf`) followed by `for (j = 0; j != N; ++j) { if (*pb && *pa) …; ++pa; ++pb; }`: (writes, reads) of the buffer -/
+def hitmissBufRound (n : Nat) : List Int × List Int := (pixelWrites n, pixelWrites n)
+
+/-! ## driver -/
+
+def sI (l : List Int) : Int := l.foldl (· + ·) 0
+
+def report (size : Nat) (ws : List Int) : String :=
+  s!"ok={if within size ws then 1 else 0} n={ws.length} term=1 sum={sI ws} covers={if covers size ws then 1 else 0} size={size}"
+
 def handleAlloc (a : Args) : Option String :=
   match a.str "kind" with
+  | "alloc" =>
+    let x := a.nat "a"; let y := a.nat "b"; let z := a.nat "c"
+    match a.str "mech" with
+    | "fill" => some (report x (fillWrites x))
+    | "pixel" => some (report x (pixelWrites x))
+    | "rows" => some (report (x * y) (rowsWrites x y))
+    | "pairs" => some (report (x * 2) (pairsWrites x))
+    | "records" => some (report (x * y) (recordsWrites x y))
+    | "bboxinit" => some (report (2 * x) (bboxInitWrites x))
+    | "complexhalves" => some (report (2 * x) (complexHalvesWrites x))
+    | "compress" =>
+      let mask := (a.ints "mask").map (· != 0)
+      some (report (compressSize mask) (compressWrites mask))
+    | "gm" =>
+      let n := a.int "n"; let l := a.int "l"
+      some (report (gmSize n l).toNat (gmIndices n l) ++ s!" reads={if readsDefined (gmIndices n l) (gmIndices n l) then 1 else 0}")
+    | "hitmissbuf" =>
+      let r := hitmissBufRound x
+      some (report x r.1 ++ s!" reads={if readsDefined r.1 r.2 then 1 else 0}")
+    | "window" => some (report (x * y) (windowWrites x y z))
+    | m => some s!"error=unknown-mech-{m}"
   | _ => none
 
 end Mahotas.C10Alloc
